@@ -105,6 +105,11 @@ def plan(tier, seed):
         P.add("fft_long", inverse=bool(rngb.random() < 0.5), n=n, batch=int(pick(rngb, [0, 0, 3])),
               center=bool(rngb.random() < 0.7), norm=pick(rngb, ["ortho", "ortho", None]),
               dtype=pick(rngb, ["complex128", "complex64"]), timeout=900)
+    # one array of more than 128 MiB (an 11-coil 128^3 volume in single precision), transformed
+    # over its image axes only: every coil is the transform of that coil (thorough tier)
+    if tier != "quick":
+        P.add("fft_huge", inverse=bool(rngb.random() < 0.5), shape=[11, 128, 128, 128],
+              dtype="complex64", timeout=1500)
     # one transform of more than 2**22 samples, not centred (the branch in which the caller's own
     # complex array is handed to the FFT routine)
     P.add("fft_long", inverse=bool(rngb.random() < 0.5), n=(1 << 22) + 6, batch=0, center=False,
@@ -224,10 +229,54 @@ def run_long(case):
     return held(sig, obs, checks, True)
 
 
+def run_huge(case):
+    import sigpy as sp
+    rng = rng_for(case)
+    shape = case["shape"]
+    dtype = np.dtype(case["dtype"])
+    f, g = (sp.ifft, sp.fft) if case["inverse"] else (sp.fft, sp.ifft)
+    x = (rng.standard_normal(shape, dtype=np.float32)
+         + 1j * rng.standard_normal(shape, dtype=np.float32)).astype(dtype)
+    sig = "huge|%s|%s" % ("i" if case["inverse"] else "f", "x".join(map(str, shape)))
+    wit = dict(case)
+    y = f(x, axes=[-3, -2, -1])
+    if y.shape != x.shape or y.dtype != dtype:
+        return violated(sig, "output shape / dtype %s %s" % (y.shape, y.dtype), wit, mech="shape")
+    checks = 0
+    sgn = 1.0 if case["inverse"] else -1.0
+    n = shape[1:]
+    for c in range(shape[0]):
+        nx_, ny_ = nrm(x[c]), nrm(y[c])
+        checks += 1
+        if not abs(ny_ - nx_) <= 1e-3 * nx_:
+            return violated(sig, "leading entry %d of %d: norm %.6g in, %.6g out (array of %d "
+                            "MiB)" % (c, shape[0], nx_, ny_, x.nbytes >> 20), wit,
+                            mech="parseval")
+        # the definition at two output samples of this entry
+        for _ in range(2):
+            m = [int(rng.integers(0, k_)) for k_ in n]
+            ph = [np.exp(sgn * 2j * np.pi * (m[a] - n[a] // 2) * (np.arange(n[a]) - n[a] // 2)
+                         / n[a]) for a in range(3)]
+            ref = np.einsum("ijk,i,j,k->", x[c].astype(np.complex128), *ph) / np.sqrt(
+                np.prod(n))
+            checks += 1
+            if not abs(y[c][tuple(m)] - ref) <= 2e-3 * max(abs(ref), nx_ / np.sqrt(np.prod(n))):
+                return violated(sig, "leading entry %d: output sample %s is %s, the DFT "
+                                "definition gives %s" % (c, m, y[c][tuple(m)], ref), wit,
+                                mech="value")
+    back = g(y, axes=[-3, -2, -1])
+    e2 = nrm(back - x) / nrm(x)
+    if not e2 <= 1e-3:
+        return violated(sig, "round trip error %.3g" % e2, wit, mech="roundtrip")
+    return held(sig, {"mib": int(x.nbytes >> 20), "roundtrip": e2}, checks + 1, True)
+
+
 def run_case(case):
     import sigpy as sp
     if case["gen"] == "fft_history":
         return run_history(case)
+    if case["gen"] == "fft_huge":
+        return run_huge(case)
     if case["gen"] == "fft_long":
         return run_long(case)
     rng = rng_for(case)
